@@ -44,7 +44,17 @@ MANIFEST = {
             "the state written outside locals (none, except predict's ndim / checkpointer; decided predicate), of the callers "
             "(evaluate, validation_loop, direct/inference.py, every call site in the package); and by exact differential "
             "correspondence with the real reconstruct_volumes / predict / _process_output / write_output_to_h5 on a marker model "
-            "through real DataLoaders, toy datasets with arbitrary slice_no and REAL H5SliceData with slice_data filters.",
+            "through real DataLoaders, toy datasets with arbitrary slice_no and REAL H5SliceData with slice_data filters. "
+            "Phase 4: the ndim == 3 branch of evaluate (volume.clone().transpose(1, 2).reshape(sc * z, c, x, y)) is in the model "
+            "(Recon.transpose12, Recon.evalReshape = row-major merge of the slice and frame axes; executed by the driver op "
+            "eval3d): row j of the tensor the metrics see is frame j % z of slice j / z (eval3d_rows_spec, eval3d_entry), "
+            "j -> (j / z, j % z) enumerates the (slice, frame) pairs in lexicographic order, each exactly once, and is a strictly "
+            "monotone bijection [0, sc*z) -> [0, sc) x [0, z) for ALL sc, z (eval3d_index_enum, eval3d_index_bij, eval3d_length; "
+            "sc = 0 / z = 0 included); tied by the translated kernel eval3d_rows (first reshape argument; bridge eval3d_rows_eq, "
+            "eval3d_rows_length), the fact table eval3d_facts (unpack of VOL.shape, clone/transpose(1, 2)/reshape chain of volume "
+            "and target, the else branch, the metric call), correspondence with the REAL evaluate at ndim = 3 (what the metric "
+            "receives for volume and target, c = 1 via _process_output's unsqueeze and c = 3 via 5-D model outputs) and an oracle "
+            "with explicit loops over 3-D marker data (layouts x batch sizes x world sizes x per-slice scaling).",
     "note": "Engine.predict / build_loader / build_batch_sampler / _compute_resolution / write_output_to_h5 are inside the model "
             "(predictFull, buildBatchSampler, computeResolution, processBatch, writeOutput) with translated source-order tables, "
             "theorems predict_full_spec (per-volume shapes and header-driven crops), write_roundtrip (any previous directory "
@@ -67,8 +77,10 @@ MANIFEST = {
             "windowOrders(workers x prefetch) orders), harness patching of communication.get_rank/get_world_size and of "
             "inference.build_dataset_from_input / build_metrics. The network is replaced by an identifiable marker; float "
             "arithmetic is exact on the integer / dyadic probe data only. Volumes are assumed non-empty; images of width 2 would "
-            "be taken for complex data by is_complex_data (outside the generator); evaluate's 3-D reshaping (ndim == 3) is not "
-            "modelled (the property is about 2-D data).",
+            "be taken for complex data by is_complex_data (outside the generator); evaluate's 3-D reshaping before the metrics "
+            "(ndim == 3) is modelled and proved (phase 4); still NOT modelled in that branch: the visualisation slices "
+            "(torch.cat of every third frame) and log_first_training_example_and_model's 3-D path; with c = 1 the transpose is a "
+            "no-op on the data, so dropping it is only visible on c > 1 outputs (covered by the c = 3 cases).",
     "technique": "Lean 4 proof (induction over the batch list with an explicit loop invariant, permutation arguments for the loader "
                  "model) + AST translation bridge (kernels + structure tables with decided predicates) + differential correspondence "
                  "on a toy MRIModelEngine + property oracle over entry points x datasets x histories",
@@ -79,6 +91,8 @@ TRUSTED = [
     "guard, normalisation (helper inlining, local resolution, canonical spellings, decision trees), stage / loop-reads / target / "
     "state-writes / caller tables",
     "torch slice assignment / broadcasting / default_collate semantics as encoded by writeSlice, zipWith and loaderBatches",
+    "torch transpose(1, 2) + reshape merging the two leading axes of a (sc, z, c, x, y) tensor = row-major concatenation, as "
+    "encoded by Recon.transpose12 / Recon.evalReshape (checked against the real evaluate by the eval3d correspondence cases)",
     "torch DataLoader (default in_order=True) yields batches in the order of the batch sampler for any num_workers (observed with "
     "0..2 workers, prefetch 1/2/4); with in_order=False it has num_workers x prefetch_factor batches in flight (observed orders are "
     "checked against Recon.windowOrders)",
@@ -100,11 +114,13 @@ RULE = ("layouts as in C13 (up to 6 volumes x 1..9 slices); batch 1..8 and 16; w
         "entry point predict/recon/evaluate/validation_loop/inference; history fresh/after-other/after-break/after-error/"
         "interleaved/second-pass/reuse-break/reuse-close/reuse-throw (same loader and sampler objects). raw loop: arbitrary splits of volumes into batches with arbitrary slice_no and loss dicts, "
         "malformed streams (mixed batch, unknown file, overflow, repetition) and reordered streams (window-2/3 delivery, volume "
-        "order, interleaving). non-trivial = at least 2 volumes and some volume split over >= 2 batches (or a malformed / "
+        "order, interleaving). eval3d (ndim == 3): 1..3 volumes x 1..4 slices, 1..5 frames, c 1 or 3, images 3..4 x 3..4, batch "
+        "1..5, world 1..2, dyadic per-slice scaling. non-trivial = at least 2 volumes and some volume split over >= 2 batches (or a malformed / "
         "reordered stream); distinct = distinct protocol line / case")
 PENDING_FINDINGS: list[str] = []
 _RECON_CASES: dict = {}      # protocol line -> replayable description (well-formed streams), for `search`
 _PREDICT_CASES: dict = {}
+_EVAL3D_CASES: dict = {}    # protocol line -> case of the ndim == 3 branch
 _PREV_STREAM: dict = {}       # the stream the engine processed just before (call history of the shared engine)
 
 logging.getLogger("direct").setLevel(logging.ERROR)
@@ -286,6 +302,85 @@ def _catch(fn):
 
 
 # --------------------------------------------------------------------------------------------------
+# ---- phase 4: the ndim == 3 branch of evaluate -----------------------------------------------------------------------
+def eval3d_case(rng):
+    layout = [rng.randint(1, 4) for _ in range(rng.randint(1, 3))]
+    return {"op": "eval3d", "layout": layout, "c": rng.choice((1, 1, 3)), "z": rng.randint(1, 5), "x": rng.randint(3, 4),
+            "y": rng.randint(3, 4), "bs": rng.randint(1, 5), "world": rng.randint(1, 2), "pows": [rng.randint(0, 2) for _ in range(sum(layout))],
+            "num_images": rng.choice((0, 8))}
+
+
+def run_eval3d(case):
+    """the REAL MRIModelEngine.evaluate with ndim = 3 on a marker dataset whose items are (z, x, y) stacks (c == 1; the
+    channel axis is added by _process_output) or (c, z, x, y) stacks; per rank and volume:
+    (file id, expected volume (sc, c, z, x, y), what the metric received as volume, as target)"""
+    layout, c, z, x, y = case["layout"], case["c"], case["z"], case["x"], case["y"]
+    n, per = sum(layout), c * z * x * y
+    shape = (z, x, y) if c == 1 else (c, z, x, y)
+    data = [(1 + i * per + torch.arange(per, dtype=torch.float32)).reshape(shape) for i in range(n)]
+    scales = [float(2 ** k) for k in case["pows"]]
+    out = []
+    eng = engine()
+    for rank in range(case["world"]):
+        ds = MarkerDataset(layout, data, scales)
+        loader = cases.build_loader(ds, case["world"], rank, case["bs"], 0)
+        calls = []
+
+        def rec(target, volume, calls=calls):
+            calls.append((target.clone(), volume.clone()))
+            return torch.tensor(float(len(calls)))
+
+        eng.marker_metrics = {"marker_metric": rec}
+        old_crop, old_n = eng.cfg.validation.crop, eng.cfg.logging.tensorboard.num_images
+        eng.cfg.validation.crop, eng.cfg.logging.tensorboard.num_images = None, case["num_images"]
+        eng.ndim = 3
+        try:
+            _loss, metrics, _vis, _vis_t = eng.evaluate(loader, {})
+        finally:
+            eng.ndim = 2
+            eng.marker_metrics = None
+            eng.cfg.validation.crop, eng.cfg.logging.tensorboard.num_images = old_crop, old_n
+        offs = [sum(layout[:v]) for v in range(len(layout))]
+        for nm, (t, v) in zip(metrics.keys(), calls):
+            f = fid(pathlib.Path(nm))
+            exp = torch.stack([data[i].reshape(c, z, x, y) * scales[i] for i in range(offs[f], offs[f] + layout[f])])
+            out.append((rank, f, exp, v, t))
+        if len(calls) != len(metrics):
+            out.append((rank, -1, None, None, None))
+    return out
+
+
+def check_eval3d(case):
+    """the statement on 3-D data, with explicit loops: every volume of every rank reaches the metrics exactly once, and row j
+    of what the metrics see is frame j % z of slice j // z (volume and target alike)"""
+    layout, c, z, x, y = case["layout"], case["c"], case["z"], case["x"], case["y"]
+    try:
+        got = run_eval3d(case)
+    except Exception as e:  # noqa: BLE001
+        yield ("eval3d-raises", f"evaluate with ndim == 3 raised {err_name(e)}", str(e))
+        return
+    seen = sorted(f for _, f, *_ in got)
+    if seen != list(range(len(layout))):
+        yield ("eval3d-volumes", "evaluate (ndim == 3): not every volume reached the metrics exactly once", seen)
+    for rank, f, exp, v, t in got:
+        if exp is None:
+            continue
+        if tuple(v.shape) != (layout[f] * z, c, x, y) or tuple(t.shape) != tuple(v.shape):
+            yield ("eval3d-shape", "evaluate (ndim == 3): shape of the tensor handed to the metrics", [f, list(v.shape), list(t.shape)])
+            continue
+        for j in range(layout[f] * z):
+            for ch in range(c):
+                if not torch.equal(v[j, ch].double(), exp[j // z, ch, j % z].double()):
+                    yield ("eval3d-slice-order", "evaluate (ndim == 3): row j of the volume the metrics see is not frame j % z of "
+                           "slice j // z", {"file": f, "row": j, "channel": ch, "got": _int_list(v[j, ch])[:4],
+                                           "want": _int_list(exp[j // z, ch, j % z])[:4]})
+                    break
+                if not torch.equal(t[j, ch].double(), 2 * exp[j // z, ch, j % z].double()):
+                    yield ("eval3d-target-order", "evaluate (ndim == 3): row j of the target the metrics see is not frame j % z "
+                           "of slice j // z", {"file": f, "row": j, "channel": ch})
+                    break
+
+
 def correspondence(ctx: Ctx):
     from direct.nn.mri_models import _process_output
 
@@ -443,6 +538,26 @@ def correspondence(ctx: Ctx):
                 return "ok 9"
             yield {"line": line("bbs", [ty, inp]), "impl": _catch_all(impl), "nontrivial": ty in (0, 1),
                    "bucket": "bbs/" + repr(TYPES[ty])}
+
+    # ---- phase 4: evaluate's ndim == 3 branch (model: Recon.evalReshape) on the volumes a real evaluate receives
+    for _ in range(ctx.budget(25, 200)):
+        case = eval3d_case(rng)
+        try:
+            got, err = run_eval3d(case), None
+        except Exception as e:  # noqa: BLE001
+            got, err = [(0, 0, torch.zeros(case["layout"][0], case["c"], case["z"], case["x"], case["y"]), None, None)], "err " + err_name(e)
+        for rank, f, exp, v, t in got:
+            if exp is None:
+                continue
+            for which, obs, mult in (("volume", v, 1), ("target", t, 2)):
+                def impl(obs=obs, err=err):
+                    if err:
+                        return err
+                    return "ok " + ints(obs.shape) + " | " + ints(_int_list(obs))
+                ln = line("eval3d", list(exp.shape), _int_list(exp * mult))
+                _EVAL3D_CASES[ln] = dict(case)
+                yield {"line": ln, "impl": impl, "nontrivial": exp.shape[0] >= 2 and case["z"] >= 2,
+                       "bucket": f"eval3d/{which}/c={case['c']}/z={'1' if case['z'] == 1 else '>1'}"}
 
     # ---- write_output_to_h5 on arbitrary tuples (basename collisions, channels, missing directory)
     from direct.utils.writers import write_output_to_h5
@@ -875,6 +990,8 @@ def search(ctx: Ctx, dis, lean):
             c, chk = _PREDICT_CASES[ln], check_predict_line
         elif ln in _RECON_CASES:
             c, chk = _RECON_CASES[ln], check_recon_stream
+        elif ln in _EVAL3D_CASES:
+            c, chk = _EVAL3D_CASES[ln], check_eval3d
         else:
             continue
         done += 1
@@ -937,6 +1054,17 @@ def oracle(ctx: Ctx, deep: bool = False):
             yield Violation(key, what, {"op": "predict", "layout": layout, "world": world, "bs": bs, "workers": workers,
                                         "hs": hs, "ws": ws, "cplx": cplx, "crop": use_crop, "seed": seed, "key": key,
                                         "observed": obs})
+    # phase 4: the statement on 3-D data (evaluate, ndim == 3)
+    for c in range(60 if deep else ctx.budget(20, 150)):
+        case = eval3d_case(rng)
+        ctx.count(("eval3d", json.dumps(case, sort_keys=True)), len(case["layout"]) >= 2 and case["z"] >= 2 and max(case["layout"]) > case["bs"],
+                  sample=case, bucket=f"oracle/eval3d/c={case['c']}/world={case['world']}")
+        keys = set()
+        for key, what, obs in check_eval3d(case):
+            if key in keys:
+                continue
+            keys.add(key)
+            yield Violation(key, what, dict(case, key=key, observed=obs))
     # the in-order guarantee of the loader (assumption `InOrder` of predict_full_spec), probed on torch's DataLoader
     probes = [(1, None), (2, None)]
     if ctx.thorough or deep:
@@ -970,6 +1098,8 @@ def replay(rep: dict) -> bool:
         if rep.get("op") == "predict":
             return any(k == rep.get("key") for k, _, _ in _check_predict(
                 rep["layout"], rep["world"], rep["bs"], rep["workers"], rep["hs"], rep["ws"], rep["cplx"], rep["crop"], rep["seed"]))
+        if rep.get("op") == "eval3d":
+            return any(k == rep.get("key") for k, _, _ in check_eval3d(rep))
         if rep.get("op") == "loader":
             return _loader_order_bad(rep["workers"], rep["prefetch"], rep["seed"]) is not None
     except Exception:  # noqa: BLE001
